@@ -3,7 +3,7 @@
     datagram and every TCP segment (SYN and SACK probes); the correspondence additionally verifies the emitted bytes
     with an independent receiver-side implementation. *)
 From Coq Require Import List ZArith Bool.
-From TR Require Import Lib.Bytes Wire.Decode Wire.Build Drv.Drivers Spec.C06 Proofs.BuildProofs Proofs.BuildProofs2 Eng.Engine Eng.Parallel Eng.Timed Proofs.EngParallel Proofs.EngCorollaries Spec.C03 Generated.GoIds Proofs.GoTieIds.
+From TR Require Import Lib.Bytes Wire.Decode Wire.Build Drv.Drivers Spec.C06 Proofs.BuildProofs Proofs.BuildProofs2 Proofs.ProbeWf Proofs.ProbeFlow Eng.Engine Eng.Parallel Eng.Timed Proofs.EngParallel Proofs.EngCorollaries Spec.C03 Generated.GoIds Proofs.GoTieIds.
 Import ListNotations.
 Open Scope Z_scope.
 
@@ -72,6 +72,27 @@ Example C06_udp6_zero_checksum_witness :
   cksum (u16b 1121 ++ u16b 33434 ++ u16b (8 + len pl) ++ [0; 0] ++ pl) (pseudo src dst 17 (8 + len pl)) = 0
   /\ (nth 46 (udp6_probe src dst 1121 33434 29) 0, nth 47 (udp6_probe src dst 1121 33434 29) 0) = (255, 255).
 Proof. vm_compute. split; reflexivity. Qed.
+
+(** "Every probe is a well-formed IP packet whose TTL/hop-limit equals the probed TTL, with correct lengths and
+    checksums": whatever the driver model sends — every variant, both families, every TTL 0..255, every identifier base,
+    every port pair, whatever was sent before — satisfies [probe_wf], the very predicate the correspondence check
+    evaluates on the bytes the real drivers emit (version/IHL, TTL byte, total/payload length, protocol, IPv4 header
+    checksum, no fragmentation, L4 checksum against the pseudo-header, UDP length, non-zero UDP checksum over IPv6,
+    TCP data offset within the segment) *)
+Theorem C06_sent_probe_wf c st t now rnd st' pkt :
+  cfg_wire_ok c -> 0 <= t <= 255 -> send c st t now rnd = SendOk st' pkt -> probe_wf c t pkt = true.
+Proof. exact (@sent_probe_wf c st t now rnd st' pkt). Qed.
+Print Assumptions C06_sent_probe_wf.
+
+(** "the same source/destination addresses and ports for the whole run, and a per-probe identifier": every probe the
+    driver model sends carries the run's addresses and ports ([probe_flow_ok]) and, on the wire, exactly the identifier
+    its scheme assigns to this TTL ([wire_id_ok]; the schemes are injective in the TTL: C06_ids_unique) — the two other
+    predicates the correspondence check evaluates on the real drivers' bytes *)
+Theorem C06_sent_probe_flow_id c st t now rnd st' pkt :
+  cfg_wire_ok c -> cfg_ids_ok c rnd -> 0 <= t <= 255 -> send c st t now rnd = SendOk st' pkt ->
+  probe_flow_ok c pkt = true /\ wire_id_ok c t rnd pkt = true.
+Proof. exact (@sent_probe_flow_id_ok c st t now rnd st' pkt). Qed.
+Print Assumptions C06_sent_probe_flow_id.
 
 (** the ICMPv6 echo body verifies against the IPv6 pseudo-header *)
 Theorem C06_icmp6_checksum src dst echo_id ttl :
